@@ -13,8 +13,10 @@
 (***************************************************************************)
 EXTENDS Integers, Sequences, FiniteSets, SequencesExt, TLC, Json
 
-CONSTANTS Family,     \* "pairs": one subscription x every (prefix, key); "multi": three subscriptions
-          MaxKeyLen, MaxPrefixLen
+CONSTANTS Family,     \* "pairs": one subscription x every (prefix, key); "multi": three subscriptions;
+                      \* "two": two live ones; "churn": a SEQUENCE of subscribe / drop / forever operations
+          MaxKeyLen, MaxPrefixLen,
+          MaxOps      \* churn only: length bound of the operation sequence
 
 Chars == {"a", "b", "E", "G"}
 ByteLen(c) == CASE c = "a" -> 1 [] c = "b" -> 1 [] c = "E" -> 2 [] c = "G" -> 4
@@ -37,16 +39,37 @@ Owner(kind) == IF kind \in {"ReplNewerSet", "ReplNewerTtl", "ReplTombstone", "Re
 ValueOf(kind) == IF kind = "LocalSetEmptyAfterDelete" THEN "" ELSE "v1"
 
 VARIABLES subs,   \* sequence of [prefix, fate]
-          key, kind, done, calls
-vars == <<subs, key, kind, done, calls>>
+          key, kind, done, calls,
+          ops     \* churn: the operations, in order, that produced subs (<<>> in the other families)
+vars == <<subs, key, kind, done, calls, ops>>
+
+\* churn: subscriptions come and go in any order before the event -- subscribe after a drop, drop the first
+\* of two subscriptions on the same prefix, make one permanent and drop its neighbour, ...
+ChurnPrefixes == {<<>>, <<"a">>}
+OpSet == {[o |-> "Sub", p |-> p, i |-> 0] : p \in ChurnPrefixes}
+         \cup {[o |-> oo, p |-> <<>>, i |-> i] : oo \in {"Drop", "Forever"}, i \in 1..3}
+ApplyOp(acc, op) ==     \* acc = [ok, subs]
+  IF ~acc.ok THEN acc
+  ELSE IF op.o = "Sub" THEN [ok |-> TRUE, subs |-> Append(acc.subs, [prefix |-> op.p, fate |-> "held"])]
+  ELSE IF op.i <= Len(acc.subs) /\ acc.subs[op.i].fate = "held"
+       THEN [ok |-> TRUE, subs |-> [acc.subs EXCEPT ![op.i].fate = IF op.o = "Drop" THEN "dropped" ELSE "forever"]]
+       ELSE [ok |-> FALSE, subs |-> acc.subs]
+RECURSIVE RunOps(_, _)
+RunOps(acc, os) == IF os = <<>> THEN acc ELSE RunOps(ApplyOp(acc, Head(os)), Tail(os))
+Outcome(os) == RunOps([ok |-> TRUE, subs |-> <<>>], os)
+ValidOps == {os \in UNION {[1..m -> OpSet] : m \in 1..MaxOps} : Outcome(os).ok /\ Outcome(os).subs # <<>>}
 
 ShortPrefixes == Strings(1)
 Init ==
   /\ key \in Strings(MaxKeyLen)
-  /\ kind \in (IF Family = "two" THEN {"LocalSetNew", "ReplNewerSet"}
+  /\ kind \in (IF Family \in {"two", "churn"} THEN {"LocalSetNew", "ReplNewerSet"}
                ELSE IF Family = "multi" THEN Kinds \ {"LocalSetEmptyAfterDelete", "LocalSetTtlSameValue", "ReplSameValueNewer"}
                ELSE Kinds)
-  /\ IF Family = "pairs"
+  /\ IF Family = "churn"
+     THEN ops \in ValidOps /\ subs = Outcome(ops).subs
+     ELSE ops = <<>>
+  /\ IF Family = "churn" THEN TRUE
+     ELSE IF Family = "pairs"
      THEN subs \in {<<[prefix |-> p, fate |-> f]>> : p \in Strings(MaxPrefixLen), f \in Fates}
      ELSE IF Family = "two"   \* two live subscriptions, one of them possibly longer than the key
      THEN subs \in {<<[prefix |-> p1, fate |-> "held"], [prefix |-> p2, fate |-> "held"]>> :
@@ -65,7 +88,7 @@ Expected ==
   ELSE {[sub |-> i, key |-> Str(Suffix(subs[i].prefix, key)), value |-> ValueOf(kind), node |-> Owner(kind)] :
           i \in {j \in 1..Len(subs) : Active(subs[j]) /\ IsPrefix(subs[j].prefix, key)}}
 
-Fire == ~done /\ done' = TRUE /\ calls' = Expected /\ UNCHANGED <<subs, key, kind>>
+Fire == ~done /\ done' = TRUE /\ calls' = Expected /\ UNCHANGED <<subs, key, kind, ops>>
 Spec == Init /\ [][Fire]_vars
 
 \* what the implementation's range scan would visit (transcription of listener.rs trigger_event):
@@ -82,6 +105,7 @@ ExpectedSane ==
 
 EmitEdge == PrintT("EDGE " \o ToJson(
    [subs |-> [i \in 1..Len(subs) |-> [prefix |-> Str(subs[i].prefix), fate |-> subs[i].fate]],
+    ops |-> [i \in 1..Len(ops) |-> [o |-> ops[i].o, p |-> Str(ops[i].p), i |-> ops[i].i]],
     key |-> Str(key), kind |-> kind, first_char_bytes |-> IF key = <<>> THEN 0 ELSE ByteLen(key[1]),
     expect |-> calls']))
 ===============================================================================
